@@ -9,6 +9,12 @@ type propInfo struct {
 }
 
 var propTable = map[string]propInfo{
+	"C10": {"proof", "All lexer functions are verified against contracts stated over the source text: the cursor invariant (line/column are the line-break count and the distance to the last line break of the byte offset, which never leaves the source), exact token starts/ends, tiling (NextToken starts at skipTrivia of the previous offset and ends inside the source), verbatim identifier/number slices with maximal munch for identifiers, keyword classification against the reserved-word list (keyword table invariant proved for package initialisation), operator classification and text, the after-newline flag, EOF exactly at the end and idempotent, absence of panics and termination of every loop (variants). Unbounded in input length; loops by invariants.", []string{
+		"a line break is '\\n'; a lone '\\r' is whitespace for this lexer and for the specification functions",
+		"token interceptors supplied by plugins are pass-through (interceptor(l, next) == next()): the hypothesis of property C04, encoded as the type contract of Interceptor values",
+		"recursive specification functions (lineOf, colOf, skipTrivia, commentEnd, identEnd, hasNL) are well-founded by inspection (each call moves the offset strictly towards 0 or len(s))",
+		"string/backtick token literals are covered by C07, not by C10's [slice] clause",
+	}},
 	"C09": {"proof", "Every function of package sourcemap is verified against its contract: the Base64-VLQ encoder against a byte-level decoder automaton (bit-vector semantics, loop fully unrolled with unwinding assertion), position tracking against line-break counting spec functions, name interning against the representation invariant, and encodeMappings against an item-level Source Map v3 decoder whose output must equal the recorded mappings (unbounded: loop invariants).", []string{
 		"all recorded positions and name indices lie within +/-2^40 (precondition of encodeMappings/SourceMap; deltas then stay below 2^62 where encodeVLQ is proved)",
 		"Meta M6: the mappings string tokenises uniquely into VLQ values and separators (each VLQ string ends in exactly one digit without continuation bit and contains only Base64 digits -- both proved for encodeVLQ); the item-level decoder is the v3 decoder modulo that tokenisation",
